@@ -89,7 +89,7 @@ def inject(rng, segs, d, rows, force_kind=None, force_i=None):
         line, sid, node, seg = rows[i]
         parts = segs[i].split(d[1])
         kind = rng.choice(['too_long', 'too_short', 'bad_code', 'bad_class', 'bad_date', 'bad_time', 'missing_required_ele',
-                           'not_used_ele', 'too_many_elements', 'unknown_segment', 'missing_required_segment', 'syntax_note', 'syntax_note'])
+                           'not_used_ele', 'too_many_elements', 'unknown_segment', 'missing_required_segment', 'syntax_note', 'syntax_note', 'wrong_format'])
         if force_kind is not None:
             kind = force_kind
         kids = node.children
@@ -189,6 +189,21 @@ def inject(rng, segs, d, rows, force_kind=None, force_i=None):
             if new[i] == segs[i]:
                 continue
             return kind + ':' + code, new, (['2'], line, None, 'e'), False
+        if kind == 'wrong_format':
+            # DTP: the value is well formed for ANOTHER format the qualifier element allows, not for the one declared
+            if sid != 'DTP' or len(parts) < 4 or len(kids) < 3:
+                continue
+            allowed = [x for x in kids[1].valid_codes if x]
+            if parts[2] == 'D8' and 'RD8' in allowed:
+                v = '20040101-20040131'
+            elif parts[2] == 'RD8' and 'D8' in allowed:
+                v = '20040229'
+            else:
+                continue
+            new = list(segs)
+            parts[3] = v
+            new[i] = d[1].join(parts)
+            return kind, new, (['8'], line, 3, 'e'), False
         if kind == 'too_many_elements':
             new = list(segs)
             while len(parts) < len(kids) + 1:
@@ -232,12 +247,13 @@ def run(ctx, report):
     thorough = ctx['tier'] == 'thorough'
     report.rule = ('conformant documents (confgen, 2 sets each so that the untouched set must stay accepted) of %d maps x one injected '
                    'fault from the catalogue {too long, too short, outside code list, wrong character class, impossible date, '
-                   'impossible time, missing required element, value in a not-used element, too many elements, unknown segment, '
-                   'missing required segment}: verdict False, an error with the matching standard code reported at the segment '
+                   'impossible time, missing required element, value in a not-used element, too many elements, broken syntax note, value in another '
+                   'allowed format than the qualifier declares, unknown segment, missing required segment}: verdict False, an error with the matching standard code reported at the segment '
                    '(source line) and element position of the fault; for non-structural faults nothing else is reported and the '
                    'other set is acknowledged A.  Distinct = (document, fault).' % len(walk_gen.QUICK_MAPS))
     names = list(walk_gen.DOC_MAPS if thorough else walk_gen.QUICK_MAPS)
     n_docs = 60 if thorough else 14
+    faulted = []
     for dk in range(n_docs):
         name = rng.choice(names)
         d = ('~', '*', ':')
@@ -257,6 +273,9 @@ def run(ctx, report):
         with_notes = [i for i, r in enumerate(rows) if r[2] is not None and r[1] not in docgen.ENVELOPE and getattr(r[2], 'syntax', None)]
         rng.shuffle(with_notes)
         plan += [('syntax_note', i) for i in with_notes[:(10 if thorough else 6)]]
+        dtps = [i for i, r in enumerate(rows) if r[1] == 'DTP' and r[2] is not None]
+        rng.shuffle(dtps)
+        plan += [('wrong_format', i) for i in dtps[:(6 if thorough else 3)]]
         for (fkind, fi) in plan:
             inj = inject(rng, segs, d, rows, fkind, fi)
             if inj is None:
@@ -267,6 +286,7 @@ def run(ctx, report):
             t2 = docgen.encode(new, d, '')
             report.case((text, kind, line, elepos))
             report.count('fault:' + kind)
+            faulted.append(('fault', 'map=%s fault=%s line=%s' % (name, kind, line), t2))
             v, trace, ack = C05.run_impl(t2)
             inp = {'map': name, 'fault': kind, 'line': line, 'element': elepos, 'text': t2[:4000]}
             if v != 'V:False':
@@ -285,6 +305,10 @@ def run(ctx, report):
                 if others:
                     report.fail('C03:collateral:%s' % kind, 'fault %s at line %s also produced errors elsewhere: %r' % (
                         kind, line, [(e[0], e[1], e[2], e[3], e[4][:60]) for e in others][:4]), inp)
+    # the model is tied on the very documents the oracle judged: whole run with the acknowledgement, model vs implementation
+    import pipecorr
+    rng.shuffle(faulted)
+    pipecorr.run(report, ctx, rng, faulted[:(200 if thorough else 30)], 1, None, force=lambda m: m[0] == 'A')
     logging.disable(logging.NOTSET)
 
 
